@@ -223,7 +223,9 @@ func runC20(o *Options) *Result {
 			switch {
 			case !inGuard:
 				class = "round:int64-overflow"
-			case !productExact(c.Mode, c.Prec, c.X):
+			case !productExact(c.Mode, c.Prec, c.X) && same(c.Got, mval):
+				// the recorded finding is "the code computes what the model says, and that is not the
+				// exact value"; an output the model does not predict is a different failure
 				class = "round:inexact-product"
 			}
 			res.OracleFails++
